@@ -205,7 +205,7 @@ class C10(Property):
     design_ref = 'DESIGN.md section 10, C10'
     required_theorems = (
         'objectType_upgrade_value_space', 'eventType_upgrade_facts', 'upgrade_GUp', 'accepted_upgrade_keeps_events_valid',
-        'accepted_upgrade_keeps_hash', 'restricting_property_rejected', 'removing_property_rejected',
+        'accepted_upgrade_keeps_hash', 'accepted_upgrade_keeps_merge', 'restricting_property_rejected', 'removing_property_rejected',
         'adding_mandatory_property_rejected', 'eventTypeFlags_valid',
     )
     level_text = ('Lean 4 theorems composing the C09 comparison model with the C03 gate model and the C01 hash input: whenever '
@@ -213,12 +213,14 @@ class C10(Property):
                   'newer definitions accepts every event the old gate accepted (value spaces only grow: enum extension, '
                   '"old|..." or dropped hard regular expressions; properties only become optional / multi-valued; added '
                   'properties are optional; attachments keep their encoding), and the event keeps its sticky hash input (merge '
-                  'strategies of existing properties are frozen). Removing a property, adding a mandatory one, restricting '
+                  'strategies of existing properties are frozen), and colliding old events merge into the same object sets and parents, '
+                  'or fail with the same error, under the newer definition (accepted_upgrade_keeps_merge). Removing a property, adding a mandatory one, restricting '
                   'optional/multi-valued, changing merge strategy or object type are never accepted. Compared with '
                   'Ontology.update(), the real gate and compute_sticky_hash on generated edits (single and compound, chains).')
     level_note = ('Proof is about the model. The meaning of hard regular expressions is a parameter: the only assumed fact is '
-                  'that "old|x" matches whatever "old" matches. "Merging colliding old events gives the same result" is checked '
-                  'by the correspondence and the oracle only, not proved.')
+                  'that "old|x" matches whatever "old" matches. The merge theorem takes the object types as they are (it covers the '
+                  'event type upgrade; that an accepted object type upgrade keeps the ordering family of min/max is by the enum-only '
+                  'rule of data type upgrades and is checked by the oracle).')
     technique = 'Lean 4 proof (refinement: accepted comparison => gate monotonicity; hash input congruence) + differential correspondence'
     parallel = True
     assumptions = ('definitions are well formed (unique property / attachment / object type names)',
